@@ -139,7 +139,9 @@ def fixed_world_order(strategy):
     """Run the real code with `cg.extract_interventions` returning the worlds as a LIST in a chosen order instead of
     a `set` (whose iteration order depends on PYTHONHASHSEED).  Every use of `worlds` in cg.py (iteration, len,
     itertools.combinations) accepts a list.  strategy None = leave the code alone."""
-    import y0.algorithm.identify.cg as cg
+    import importlib
+
+    cg = importlib.import_module("y0.algorithm.identify.cg")
 
     if strategy is None:
         yield
@@ -212,58 +214,79 @@ def rand_event(rng: random.Random, g, max_worlds=3, max_items=4, p_self=None):
 
 
 def shrink_event_case(case, keys=("event",)):
-    """smaller cases: drop a node, an edge, a conjunct, a subscript; flip a star to unstarred"""
+    """smaller cases, most drastic first: drop a node (with its edges, conjuncts and subscripts), drop an edge,
+    drop a conjunct, drop a subscript, turn a starred value / subscript into an unstarred one.
+    Every event listed in `keys` must stay non-empty."""
     g = case["g"]
-    used = set()
-    for key in keys:
-        for var, _ in case.get(key, []):
-            used.add(int(var[1]))
-            used |= {int(n) for n, _ in var[4]}
-    for v in G.all_nodes(g):
+    nodes = G.all_nodes(g)
+
+    def ok(c):
+        return all(c.get(k) for k in keys)
+
+    for v in nodes:
         c = dict(case)
-        c["g"] = {"nodes": [x for x in G.all_nodes(g) if x != v], "di": [e for e in g["di"] if v not in e],
+        c["g"] = {"nodes": [x for x in nodes if x != v], "di": [e for e in g["di"] if v not in e],
                   "bi": [e for e in g["bi"] if v not in e]}
-        ok = True
         for key in keys:
-            ev2 = []
-            for var, val in case.get(key, []):
-                if int(var[1]) == v:
-                    continue
-                ev2.append([mkvar(var[1], [(n, s) for n, s in var[4] if int(n) != v]), val])
+            ev2 = [[mkvar(var[1], [(n, s) for n, s in var[4] if int(n) != v]), val]
+                   for var, val in case.get(key, []) if int(var[1]) != v]
             c[key] = _dedupe_event(ev2)
-        if ok and all(c.get(k) for k in keys if case.get(k)):
+        if ok(c):
             yield c
-    for kind in ("di", "bi"):
+    # bypass a node the events do not mention: parents -> children directly
+    mentioned = {int(var[1]) for key in keys for var, _ in case.get(key, [])} | \
+        {int(n) for key in keys for var, _ in case.get(key, []) for n, _ in var[4]}
+    for v in nodes:
+        pas = [e[0] for e in g["di"] if e[1] == v]
+        chs = [e[1] for e in g["di"] if e[0] == v]
+        if v in mentioned or not pas or not chs:
+            continue
+        c = dict(case)
+        di = [e for e in g["di"] if v not in e]
+        for p_ in pas:
+            for ch in chs:
+                if [p_, ch] not in di:
+                    di.append([p_, ch])
+        c["g"] = {"nodes": [x for x in nodes if x != v], "di": di, "bi": [e for e in g["bi"] if v not in e]}
+        yield c
+    for kind in ("bi", "di"):
         for k in range(len(g[kind])):
             c = dict(case)
-            c["g"] = dict(g, nodes=G.all_nodes(g))
+            c["g"] = {"nodes": nodes, "di": list(g["di"]), "bi": list(g["bi"])}
             c["g"][kind] = g[kind][:k] + g[kind][k + 1:]
             yield c
     for key in keys:
         ev = case.get(key, [])
         for k in range(len(ev)):
-            if len(ev) > 1 or len(keys) > 1:
-                c = dict(case)
-                c[key] = ev[:k] + ev[k + 1:]
-                if c[key] or key != keys[-1] or len(keys) == 1:
-                    if all(c.get(kk) for kk in keys if kk != "outcomes") or True:
-                        yield c
+            c = dict(case)
+            c[key] = ev[:k] + ev[k + 1:]
+            if ok(c):
+                yield c
+    for key in keys:
+        ev = case.get(key, [])
         for k, (var, val) in enumerate(ev):
             for j in range(len(var[4])):
                 c = dict(case)
                 nv = mkvar(var[1], var[4][:j] + var[4][j + 1:])
                 c[key] = _dedupe_event(ev[:k] + [[nv, val]] + ev[k + 1:])
-                yield c
-        # make all occurrences of one subscript (name, star) unstarred / one value unstarred
+                if len(c[key]) == len(ev):
+                    yield c
+    for key in keys:
+        ev = case.get(key, [])
         for k, (var, val) in enumerate(ev):
             if val == "p":
                 c = dict(case)
                 c[key] = ev[:k] + [[var, "m"]] + ev[k + 1:]
                 yield c
-        starred = sorted({int(n) for var, _ in ev for n, s in var[4] if s == "p"})
-        for n0 in starred:
-            c = dict(case)
+    starred = sorted({int(n) for key in keys for var, _ in case.get(key, []) for n, s in var[4] if s == "p"})
+    for n0 in starred:
+        c = dict(case)
+        good = True
+        for key in keys:
+            ev = case.get(key, [])
             c[key] = _dedupe_event([[mkvar(var[1], [(n, "m" if int(n) == n0 else s) for n, s in var[4]]), val] for var, val in ev])
+            good = good and len(c[key]) == len(ev)
+        if good:
             yield c
 
 
@@ -314,4 +337,198 @@ def load_corpus(prop):
         for f in sorted(d.glob("*.json")):
             x = json.loads(f.read_text())
             out += x if isinstance(x, list) else [x]
+    return out
+
+
+# ------------------------------------------------------------------------------------------ ID* orders
+
+
+def nx_var_key(v):
+    """sort key of a y0 variable mirroring `_variable_sort_key` on the harness's fixed-width names (Var.keyLt)"""
+    return E.var_key(E.enc_var(v))
+
+
+@contextlib.contextmanager
+def fixed_orders(strategy):
+    """strategy = (rev, rot, drev) or None.  (rev, rot): iteration order of the worlds set in cg.py (see
+    fixed_world_order); drev: iteration order of the nodes of a district (a frozenset) in the dict comprehension of
+    id_star.get_events_of_district -- sorted by `_variable_sort_key`, reversed when drev.  Only the ORDER in which the
+    unchanged real functions see their set-valued arguments is fixed."""
+    if strategy is None:
+        yield
+        return
+    import importlib
+
+    ids = importlib.import_module("y0.algorithm.identify.id_star")
+
+    rev, rot, drev = strategy
+    orig = ids.get_events_of_district
+
+    def patched(graph, district, event):
+        return orig(graph, sorted(district, key=nx_var_key, reverse=bool(drev)), event)
+    ids.get_events_of_district = patched
+    try:
+        with fixed_world_order((rev, rot)):
+            yield
+    finally:
+        ids.get_events_of_district = orig
+
+
+def id_strategies(ev, extra_worlds=0):
+    return [(r, k, d) for (r, k) in strategies_for(ev, extra_worlds) for d in (0, 1)]
+
+
+@contextlib.contextmanager
+def fixed_orders_idc(strategy):
+    """as fixed_orders, plus: the keys that get_new_outcomes_and_conditions adds from the set
+    `set(new_event) - set(outcomes) - set(conditions)` are inserted in sorted order (reversed when drev)"""
+    if strategy is None:
+        yield
+        return
+    import importlib
+
+    idc = importlib.import_module("y0.algorithm.identify.idc_star")
+    rev, rot, drev = strategy
+    orig = idc.get_new_outcomes_and_conditions
+
+    def patched(new_event, outcomes, conditions):
+        ro, rc = orig(new_event, outcomes, conditions)
+
+        def reorder(d, base):
+            first = [k for k in d if k in base]
+            rest = sorted([k for k in d if k not in base], key=nx_var_key, reverse=bool(drev))
+            return {k: d[k] for k in first + rest}
+        return reorder(ro, outcomes), reorder(rc, conditions)
+    idc.get_new_outcomes_and_conditions = patched
+    try:
+        with fixed_orders(strategy):
+            yield
+    finally:
+        idc.get_new_outcomes_and_conditions = orig
+
+
+def rand_event_pair(rng: random.Random, g, max_worlds=2):
+    """(outcomes, conditions): both non-empty, disjoint keys, drawn from one pool of worlds"""
+    for _ in range(20):
+        ev = rand_event(rng, g, max_worlds=max_worlds, max_items=rng.choice([2, 2, 3, 3, 4]))
+        if len(ev) >= 2:
+            break
+    else:
+        return None
+    idx = list(range(len(ev)))
+    rng.shuffle(idx)
+    k = rng.randint(1, len(ev) - 1)
+    outs = [ev[i] for i in sorted(idx[:k])]
+    conds = [ev[i] for i in sorted(idx[k:])]
+    rng.shuffle(outs)
+    rng.shuffle(conds)
+    return outs, conds
+
+
+# ------------------------------------------------------------------------------------------ shrinking to finding keys
+
+
+class Shrinker:
+    """Greedy, failure-kind preserving shrinking of a failing case and the finding key of the result.
+
+    evaluate(case, n_models, with_unpatched) -> {"fail": str | None, "kind": str | None, ...}
+    The key of a shrunk case is (kind, graph + events up to renaming of the variables)."""
+
+    def __init__(self, prop, keys, evaluate, fields):
+        self.prop, self.keys, self.evaluate, self.fields = prop, tuple(keys), evaluate, tuple(fields)
+        self._known = None
+
+    def key_of(self, case, kind):
+        import json
+
+        return json.dumps([kind, relabel_canonical(case, keys=self.keys)], sort_keys=True)
+
+    def still_fails(self, cand, kind):
+        """same failure kind on the candidate: tried with two different model samples before giving up (a wrong
+        estimand can coincide with the right value on degenerate models)"""
+        for ds in (0, 7919):
+            c = dict(cand, seed=cand.get("seed", 0) + ds)
+            r = self.evaluate(c, n_models=8, with_unpatched=False)
+            if r["fail"] and r["kind"] == kind:
+                return True
+        return False
+
+    def shrink_fully(self, case, kind, budget=400, order_seed=None):
+        cur = {k: case[k] for k in self.fields if k in case}
+        cur["g"] = {"nodes": G.all_nodes(cur["g"]), "di": cur["g"]["di"], "bi": cur["g"]["bi"]}
+        rng = random.Random(order_seed) if order_seed is not None else None
+        improved = True
+        while improved and budget > 0:
+            improved = False
+            cands = list(shrink_event_case(cur, keys=self.keys))
+            if rng is not None:
+                rng.shuffle(cands)
+            for cand in cands:
+                budget -= 1
+                if budget <= 0:
+                    break
+                try:
+                    ok = self.still_fails(cand, kind)
+                except Exception:
+                    continue
+                if ok:
+                    cur = cand
+                    improved = True
+                    break
+        return cur
+
+    def known_keys(self):
+        if self._known is None:
+            self._known = {f["key"] for f in C.load_known(self.prop)}
+        return self._known
+
+    greedy_only = False
+
+    def shrink_to_key(self, case, kind):
+        """(shrunk case, key).  The greedy local minimum first; if its key is not a listed finding, a few other shrink
+        orders are tried and a listed key is preferred (one defect has several local minima)."""
+        small = self.shrink_fully(case, kind)
+        key = self.key_of(small, kind)
+        if key not in self.known_keys() and not self.greedy_only:
+            for t in range(6):
+                alt = self.shrink_fully(case, kind, order_seed=case.get("seed", 0) * 31 + t)
+                k2 = self.key_of(alt, kind)
+                if k2 in self.known_keys():
+                    return alt, k2
+        return small, key
+
+
+# ------------------------------------------------------------------------------------------ small-scope exhaustive slice
+
+
+def exhaustive_event_cases(max_nodes=2, max_items=2):
+    """every acyclic mixed graph on <= max_nodes labelled nodes (edges u->v only for u<v or v<u, optional u<->v) x every
+    event with <= max_items conjuncts V_S = v (S any consistent assignment to a subset of the nodes, v in {x, x'})"""
+    out = []
+    for n in range(1, max_nodes + 1):
+        nodes = list(range(n))
+        prs = list(itt.combinations(nodes, 2))
+        graphs = []
+        for dsel in itt.product((0, 1, 2), repeat=len(prs)):
+            di = [[u, w] if s == 1 else [w, u] for (u, w), s in zip(prs, dsel) if s]
+            try:
+                from . import cf_fscm as _S
+
+                _S.topo_order(nodes, [tuple(e) for e in di])
+            except ValueError:
+                continue
+            for bsel in itt.product((0, 1), repeat=len(prs)):
+                graphs.append({"nodes": nodes, "di": di, "bi": [[u, w] for (u, w), s in zip(prs, bsel) if s]})
+        worlds = []
+        for sel in itt.product((None, "m", "p"), repeat=n):
+            worlds.append(tuple((i, s) for i, s in enumerate(sel) if s))
+        conj = [[mkvar(vv, w), val] for vv in nodes for w in worlds for val in ("m", "p")]
+        events = [[c] for c in conj]
+        for k in range(2, max_items + 1):
+            for combo in itt.combinations(conj, k):
+                if len({C.enc(c[0]) for c in combo}) == k:
+                    events.append(list(combo))
+        for g in graphs:
+            for ev in events:
+                out.append({"g": g, "event": sort_event(ev), "seed": 7})
     return out
